@@ -45,7 +45,7 @@ func schemaOf(g *gen.G, depth int) bson.D {
 	}
 	for len(out) < n {
 		k := g.PickS("type", "bsonType", "enum", "allOf", "anyOf", "oneOf", "not", "minimum", "maximum", "minLength", "maxLength", "required", "minProperties", "maxProperties",
-			"properties", "additionalProperties", "dependencies", "items", "additionalItems", "minItems", "maxItems", "uniqueItems", "title", "properties", "type", "bsonType", "required")
+			"properties", "additionalProperties", "dependencies", "items", "additionalItems", "minItems", "maxItems", "uniqueItems", "title", "properties", "type", "bsonType", "required", "patternProperties", "additionalProperties")
 		if used[k] || (k == "type" && used["bsonType"]) || (k == "bsonType" && used["type"]) {
 			continue
 		}
@@ -82,6 +82,14 @@ func schemaOf(g *gen.G, depth int) bson.D {
 			p := bson.D{}
 			for _, f := range []string{"a", "b", "c", "_id"} {
 				if g.P(45) {
+					p = append(p, e(f, sub()))
+				}
+			}
+			out = append(out, e(k, p))
+		case "patternProperties":
+			p := bson.D{}
+			for _, f := range []string{"^a", "b$", "^c$", "_", "^", "d", "^zz", "a.b"} {
+				if g.P(30) {
 					p = append(p, e(f, sub()))
 				}
 			}
@@ -150,6 +158,21 @@ func schemaCases(g *gen.G, n int, counts map[string]int) {
 		{bson.D{e("dependencies", bson.D{e("a", bson.A{"b"})})}, bson.D{e("a", int32(1)), e("b", int32(2))}},
 		{bson.D{e("dependencies", bson.D{e("a", bson.D{e("required", bson.A{"c"})})})}, bson.D{e("x", int32(1))}},
 		{bson.D{e("dependencies", bson.D{e("a", bson.D{e("required", bson.A{"c"})})})}, bson.D{e("a", int32(1))}},
+	}
+	// members matched by a pattern are not additional ones; prefix, suffix, exact and substring patterns
+	for _, pat := range []string{"^ab", "ab$", "^ab$", "ab", "^", "x_1"} {
+		for _, ap := range []interface{}{false, true, bson.D{e("type", "string")}, nil} {
+			sc := bson.D{e("patternProperties", bson.D{e(pat, bson.D{e("type", "number")})})}
+			if ap != nil {
+				sc = append(sc, e("additionalProperties", ap))
+			}
+			if pat == "ab" {
+				sc = append(sc, e("properties", bson.D{e("zab", bson.D{e("type", "string")})}))
+			}
+			for _, v := range []bson.D{{e("ab", int32(1))}, {e("abc", int32(1))}, {e("cab", int32(1))}, {e("cabc", "s")}, {e("ab", "s")}, {e("b", "s")}, {e("zab", "s"), e("ab", int32(2))}, {e("x_1", int32(1)), e("q", "s")}, {}} {
+				fixed = append(fixed, [2]interface{}{sc, v})
+			}
+		}
 	}
 	for _, f := range fixed {
 		s, v := f[0].(bson.D), f[1]
